@@ -44,6 +44,16 @@ def strategy(tier):
                 iteration_limit=100 if tier == "quick" else 300,
             )
         )
+        if draw(st.integers(0, 3)) == 0:
+            # functions non-finite further than R from the start: trial points the step controller accepts may
+            # turn out to be unevaluable and are discarded -- they must leave no trace in the penalty
+            case["domain"] = {"R": draw(st.sampled_from([0.1, 0.5, 2.0])), "component": draw(st.sampled_from(["obj", "any", "obj_grad", "cons"])), "value": draw(st.sampled_from(["nan", "inf"]))}
+            case["params"]["lamb_init"] = draw(st.sampled_from([1e-3, 1e-2, 1.0]))
+            if draw(st.booleans()) and case["spec"]["m"] > 0:
+                # the stateful policies with multipliers far above the penalty: every accepted step raises rho
+                case["params"]["penalty_update"] = draw(st.sampled_from(["DualNorm", "DualNorm", "ParetoDecrease", "DualEquilibration"]))
+                case["params"]["rho"] = draw(st.sampled_from([1e-8, 1e-2]))
+                case["start"] = dict(case["start"], y0=[draw(st.sampled_from([-500.0, 250.0, 1000.0])) for _ in range(case["spec"]["m"])])
         return case
 
     return _s()
@@ -54,6 +64,12 @@ def check(case):
     pen = case["params"].get("penalty_update", "DualNorm")
     try:
         problem, params, x0, y0 = SC.build(case)
+        if case.get("domain"):
+            from vf.faults import make_faulty_problem
+
+            dom = case["domain"]
+            problem = make_faulty_problem(problem, {"mode": "region", "center": S.x0_array(case["spec"], case["start"]).tolist(), "R": dom["R"], "component": dom["component"], "value": dom["value"], "entry": 0})
+            labels.append("restricted_domain")
         solver = make_tracing_solver(problem, params)
     except Exception as e:
         return excluded(f"build:{type(e).__name__}", labels)
